@@ -65,8 +65,9 @@ func (qp *QueryProcessor) ProcessQuery(query string) *ProcessedQuery {
 	cleaned := qp.cleanQuery(query)
 	pq.Cleaned = cleaned
 
-	// Extract words
-	words := strings.Fields(strings.ToLower(cleaned))
+	// Extract words (lowercase before cleaning: the cleaner drops non-ASCII characters, and a
+	// letter such as the Kelvin sign U+212A lowercases to ASCII "k")
+	words := strings.Fields(qp.cleanQuery(strings.ToLower(query)))
 
 	// Detect context clues for better intent detection
 	queryLower := strings.ToLower(query)
